@@ -86,6 +86,9 @@ def mh_prop_node(key, st, step):
 PYNUM = "liesel:MH+RW(scalar parameter stored as a Python number)"
 
 
+AUTO_OFF = "liesel:RW+Gibbs(model with auto_update = False)"
+
+
 def make_sequence(kind):
     """returns (kernels, model interface, example model state builder, free input values, kernel-state examples, rec)"""
     import liesel.goose as gs
@@ -118,6 +121,13 @@ def make_sequence(kind):
             kst = [RWKernelState(0.4), {}]
             param_keys = ["mu_value", "tau"]
         elif kind == "liesel:RW+Gibbs":
+            ks = [gs.RWKernel(["beta"]), gs.GibbsKernel(["sigma_transformed"], gibbs_fn)]
+            kst = [RWKernelState(0.4), {}]
+        elif kind == AUTO_OFF:
+            # the user's model defers updates (auto_update = False, a public setting): every write-back of a kernel still has to leave ALL
+            # tracked nodes coherent, also derived nodes that feed no distribution (the residual report node)
+            model.auto_update = False
+            iface = gs.LieselInterface(model)
             ks = [gs.RWKernel(["beta"]), gs.GibbsKernel(["sigma_transformed"], gibbs_fn)]
             kst = [RWKernelState(0.4), {}]
         elif kind == "liesel:IWLS+RW":
@@ -337,8 +347,8 @@ def obligations(kind, e_seq, e_orc, ks, param_keys, s_free, has_derived):
 
 def main():
     chk = Check("C09")
-    kinds = ["liesel:RW+Gibbs", "liesel:NUTS+MH", "dict:RW+MH", "liesel:Gibbs+RW+RW(ids not sorted)", "liesel:Gibbs(int-initialised parameter)+RW", "liesel:RW+MH(position keys are value-node names)", "liesel:Gibbs+Gibbs(second reads the first's block)", "liesel:RW+Gibbs(block is a plain value node)", PYNUM] if chk.tier == "quick" else \
-        ["liesel:RW+Gibbs", "liesel:IWLS+RW", "liesel:NUTS+MH", "liesel:Gibbs+RW+RW(ids not sorted)", "dict:RW+MH", "dict:NUTS+RW", "liesel:Gibbs(int-initialised parameter)+RW", "liesel:RW+MH(position keys are value-node names)", "liesel:Gibbs+Gibbs(second reads the first's block)", "liesel:RW+Gibbs(block is a plain value node)", PYNUM]
+    kinds = ["liesel:RW+Gibbs", "liesel:NUTS+MH", "dict:RW+MH", "liesel:Gibbs+RW+RW(ids not sorted)", "liesel:Gibbs(int-initialised parameter)+RW", "liesel:RW+MH(position keys are value-node names)", "liesel:Gibbs+Gibbs(second reads the first's block)", "liesel:RW+Gibbs(block is a plain value node)", PYNUM, AUTO_OFF] if chk.tier == "quick" else \
+        ["liesel:RW+Gibbs", "liesel:IWLS+RW", "liesel:NUTS+MH", "liesel:Gibbs+RW+RW(ids not sorted)", "dict:RW+MH", "dict:NUTS+RW", "liesel:Gibbs(int-initialised parameter)+RW", "liesel:RW+MH(position keys are value-node names)", "liesel:Gibbs+Gibbs(second reads the first's block)", "liesel:RW+Gibbs(block is a plain value node)", PYNUM, AUTO_OFF]
     obs = []
     for kind in kinds:
         res = chk.guarded(f"{kind}:trace", f"[{kind}] tracing the kernel sequence", scenario, chk, kind)
